@@ -40,7 +40,7 @@
 (*    and equality of e_i, e_j follows from the adjacent pairs.            *)
 (* If a batch is not sorted both ways (text with interior zero bytes, for  *)
 (* which C11 claims nothing) or asks for it (pw), all pairs are checked.   *)
-(* Order is demanded of the pairs checked.                                 *)
+(* Order (C11) is demanded of adjacent pairs, of all pairs if pw.          *)
 (*                                                                         *)
 (* Every event is judged and a rejected one is printed (line, batch id,    *)
 (* stratum, <<item, item or 0, clause>>) and counted; accepted iff         *)
@@ -106,12 +106,15 @@ BatchBad(b) ==
       sch == [i \in 1..Len(names) |-> TypeOf(names[i])]
       its == b.items
       n == Len(its)
-      allPairs == b.pw \/ ~(EncSorted(its) /\ ValSorted(sch, its))
-      pairs == IF PairClauses = {} THEN {}
-               ELSE IF allPairs THEN {<<i, j>> \in (1..n) \X (1..n) : i < j}
-               ELSE {<<i, i + 1>> : i \in 1..(n - 1)}
+      every == {<<i, j>> \in (1..n) \X (1..n) : i < j}
+      adjacent == {<<i, i + 1>> : i \in 1..(n - 1)}
+      c15 == PairClauses \ {"Order"}
+      pairsC11 == IF "Order" \notin PairClauses THEN {} ELSE IF b.pw THEN every ELSE adjacent
+      pairsC15 == IF c15 = {} THEN {}
+                  ELSE IF b.pw \/ ~(EncSorted(its) /\ ValSorted(sch, its)) THEN every ELSE adjacent
   IN {<<t[1], 0, t[2]>> : t \in {u \in (1..n) \X ItemClauses : ~ItemOK(u[2], names, sch, its[u[1]])}}
-     \cup {t \in {<<p[1], p[2], c>> : p \in pairs, c \in PairClauses} :
+     \cup {<<p[1], p[2], "Order">> : p \in {q \in pairsC11 : ~PairOK("Order", sch, its[q[1]], its[q[2]])}}
+     \cup {t \in {<<p[1], p[2], c>> : p \in pairsC15, c \in c15} :
               ~PairOK(t[3], sch, its[t[1]], its[t[2]])}
 
 EventBad(e) ==
